@@ -49,6 +49,9 @@ Fixpoint upd (k : key) (f : acct -> acct) (l : ledger) : ledger :=
 
 Definition total (l : ledger) : Z := zsum (map a_lam l).
 
+(* add n (possibly negative) lamports to the account with key k *)
+Definition credit (k : key) (n : Z) (l : ledger) : ledger := upd k (fun a => set_lam (a_lam a + n) a) l.
+
 (* every balance is a u64 and so is the total supply (the property's standing assumption) *)
 Definition lam_ok (a : acct) : bool := (0 <=? a_lam a) && (a_lam a <=? U64_MAX).
 Definition ledger_ok (l : ledger) : Prop := forallb lam_ok l = true /\ total l <= U64_MAX.
@@ -129,11 +132,11 @@ Definition sys_transfer (l : ledger) (f t : meta) (lam : Z) : out ledger :=
       else if negb (a_owner fa =? SYS) then Err SIM_EXTERNAL_SPEND
       else if negb (m_writable f && m_writable t) then Err SIM_READONLY_MODIFIED
       else
-        let l1 := upd (m_key f) (fun a => set_lam (a_lam a - lam) a) l in
+        let l1 := credit (m_key f) (- lam) l in
         match find (m_key t) l1 with
         | Some ta1 =>
             if U64_MAX <? a_lam ta1 + lam then Err PE_ARITHMETIC_OVERFLOW
-            else Ok (upd (m_key t) (fun a => set_lam (a_lam a + lam) a) l1)
+            else Ok (credit (m_key t) lam l1)
         | None => Err SIM_MISSING_ACCOUNT
         end
   | _, _ => Err SIM_MISSING_ACCOUNT
@@ -196,11 +199,11 @@ Definition invoke (pda : pda_fn) (c : cpi) (s : st) : out st :=
    profile sets overflow-checks = true; debug always has them) *)
 Definition add_lamports (k : key) (n : Z) (l : ledger) : out ledger :=
   match find k l with
-  | Some a => if U64_MAX <? a_lam a + n then Panic else Ok (upd k (fun a => set_lam (a_lam a + n) a) l)
+  | Some a => if U64_MAX <? a_lam a + n then Panic else Ok (credit k n l)
   | None => Fault      (* the account set always holds the account it names: not reachable *)
   end.
 Definition sub_lamports (k : key) (n : Z) (l : ledger) : out ledger :=
   match find k l with
-  | Some a => if a_lam a - n <? 0 then Panic else Ok (upd k (fun a => set_lam (a_lam a - n) a) l)
+  | Some a => if a_lam a - n <? 0 then Panic else Ok (credit k (- n) l)
   | None => Fault
   end.
